@@ -5,12 +5,19 @@
   assembler.go; the base intrinsic-gas table and data-gas constants are REGENERATED from the Go source,
   `LemoGen.Gas`).  Tied by `hx c05`: the real engine's blocks (miner path + validator path) and the
   model agree on selected/discarded txs, every gasUsed and every balance, vote count and profile field
-  of the account universe after every block.  EVM value flows are outside this model (C16); reward
-  blocks are outside (no term boundary in the scenario).
+  of the account universe after every block — REWARD BLOCKS included (the scenario runs with short terms:
+  term reward set through precompile 0x09, salaries, postponed deposit refunds).  EVM value flows are outside
+  this model (C16).
 
-  Full statement (kept visible): for every block, Σ balances' = Σ balances (no reward, no burn), every
-  included tx's payer is charged exactly gasUsed × gasPrice with gasUsed ≤ gasLimit, the miner's income
+  Full statement (kept visible): for every block, Σ balances' = Σ balances + (term reward, in a reward block),
+  every included tx's payer is charged exactly gasUsed × gasPrice with gasUsed ≤ gasLimit, the miner's income
   address gets exactly Σ gasUsed × gasPrice.
+
+  * reward blocks: `rewardSteps_sum` / `finalize_supply` (issueTermReward + refundCandidateDeposit move the
+    total by exactly the salaries paid — refunds are pool → candidate and cancel out), `salaryTotal_le_total`
+    and `salaryTotal_gt` (term reward − n·1 LEMO < Σ salaries ≤ term reward: what the two roundings of
+    calculateSalary withhold is less than 1 LEMO per node and is NOT issued to anybody);
+    "+ exactly the term reward" is therefore REFUTED as stated: `reward_remainder_not_issued`.
 
   * proved for all states and all txs: `applySimple_supply` (a non-box tx moves the total by exactly
     −gasUsed×price: the fee leaves the accounts until the miner is credited), `applySimple_gas`
@@ -21,8 +28,9 @@
     `fee_vanishes_without_income` (chargeForGas silently drops the fee).
 -/
 import LemoProofs.Lemmas.LedgerSum
+import LemoProofs.Lemmas.LedgerReward
 namespace LemoProofs.C05
-open LemoModel.Ledger LemoProofs.LedgerSum
+open LemoModel.Ledger LemoProofs.LedgerSum LemoProofs.LedgerReward
 
 /-- the addresses a non-box tx may touch -/
 def touches (c : Ctx) (tx : Tx) : List Nat :=
@@ -56,18 +64,6 @@ theorem doSetSigners_sum (s s' : St) (fr tg : Nat) (l : List (Nat × Nat)) (U : 
   split at h; · cases h
   injection h with h; subst h
   exact sumBal_modAcct _ _ _ (by intro _; rfl) U
-
-theorem refund_sum (c : Ctx) (s : St) (cand : Nat) (U : List Nat) (hn : U.Nodup)
-    (hc : cand ∈ U) (hp : c.p.pool ∈ U) : sumBal (refund c s cand) U = sumBal s U := by
-  unfold refund
-  split
-  · rfl
-  · rename_i d _
-    simp only
-    rw [sumBal_modAcct _ _ _ (by intro _; rfl), sumBal_setBal _ cand _ U hn hc, sumBal_setBal s c.p.pool _ U hn hp]
-    by_cases e : cand = c.p.pool
-    · rw [e, setBal_bal, if_pos rfl]; omega
-    · rw [setBal_bal, if_neg e]; omega
 
 theorem doRegister_sum (c : Ctx) (s s' : St) (fr : Nat) (amt : Int) (unreg : Bool) (inc : Nat) (U : List Nat)
     (hn : U.Nodup) (hf : fr ∈ U) (hp : c.p.pool ∈ U)
@@ -224,17 +220,78 @@ theorem chargeForGas_sum (s : St) (miner : Nat) (f : Int) (U : List Nat) (hn : U
   · simp only [hf, if_false, hinc]
     rw [sumBal_setBal _ _ _ U hn hU]; omega
 
+/-- the vote pass changes nobody's income address -/
+theorem votesByBalance_income (c : Ctx) (start : Nat → Int) : ∀ (l : List Nat) (s : St) (x : Nat),
+    ((votesByBalance c start s l).accts x).income = (s.accts x).income := by
+  intro l
+  induction l with
+  | nil => intro s x; rfl
+  | cons a as ih =>
+    intro s x
+    unfold votesByBalance
+    simp only
+    rw [ih]
+    split
+    · simp only [upd]
+      split
+      · rename_i hx; rw [hx]
+      · rfl
+    · rfl
+
+/-- **finalize_supply**: `Finalize` moves the total of all balances by exactly what the block mints — the salaries
+    of a reward block with a positive term reward (`minted`), nothing at any other height; in both orders of the
+    vote pass (the pass never touches a balance). -/
+theorem finalize_supply (c : Ctx) (start : Nat → Int) (s : St) (addrs U : List Nat) (hn : U.Nodup) (hp : c.p.pool ∈ U)
+    (hrecv : ∀ n ∈ c.rf.nodes, incomeOf s n.1 ∈ U) (href : ∀ a ∈ c.rf.refunds, a ∈ U) :
+    sumBal (finalize c start s addrs) U = sumBal s U + minted c := by
+  unfold finalize
+  split
+  · rw [sumBal_congr _ _ (votesByBalance_bal c start addrs _) U, rewardSteps_sum c s U hn hp hrecv href]
+  · rw [rewardSteps_sum c _ U hn hp ?_ href, sumBal_congr _ _ (votesByBalance_bal c start addrs _) U]
+    intro n hn'
+    have : incomeOf (votesByBalance c start s addrs) n.1 = incomeOf s n.1 := by
+      unfold incomeOf; rw [votesByBalance_income]
+    rw [this]; exact hrecv n hn'
+
 /-- the income address of the miner's profile is not changed by mining when nobody re-registers the miner:
-    we take it as the hypothesis `hinc'` on the post-mining state (the harness's miners never re-register). -/
+    we take it as the hypothesis `hinc'` on the post-mining state.
+    **mineBlock_conserves_partial**: a box-free block mined by a deputy with an income address changes the total of
+    all balances by exactly `minted c`: 0 outside reward blocks, the salaries paid in a reward block. -/
 theorem mineBlock_conserves_partial (c : Ctx) (s : St) (gp : Nat) (txs : List Tx) (addrs U : List Nat) (hn : U.Nodup)
     (hb : BoxFree txs) (hU : ∀ t ∈ txs, ∀ a ∈ touches c t, a ∈ U)
-    (hinc : ((mine c s gp txs).st.accts c.miner).income ≠ 0) (hincU : ((mine c s gp txs).st.accts c.miner).income ∈ U) :
-    sumBal (mineBlock c s gp txs addrs).1 U = sumBal s U := by
+    (hinc : ((mine c s gp txs).st.accts c.miner).income ≠ 0) (hincU : ((mine c s gp txs).st.accts c.miner).income ∈ U)
+    (hp : c.p.pool ∈ U)
+    (hrecv : ∀ n ∈ c.rf.nodes, incomeOf (chargeForGas (mine c s gp txs).st c.miner (mine c s gp txs).fee) n.1 ∈ U)
+    (href : ∀ a ∈ c.rf.refunds, a ∈ U) :
+    sumBal (mineBlock c s gp txs addrs).1 U = sumBal s U + minted c := by
   have hm := mine_supply_partial c U hn txs s gp hb hU
   unfold mineBlock
   simp only
-  rw [sumBal_congr _ _ (votesByBalance_bal c _ addrs _) U, chargeForGas_sum _ _ _ U hn hinc hincU, hm]
+  rw [finalize_supply c _ _ addrs U hn hp hrecv href, chargeForGas_sum _ _ _ U hn hinc hincU, hm]
   omega
+
+/-- outside reward blocks nothing is minted -/
+theorem minted_zero_of_not_reward (c : Ctx) (h : isRewardBlock c = false) : minted c = 0 := by
+  unfold minted; simp [h]
+
+/-- **minted_bounds**: 0 ≤ minted ≤ term reward; and in a reward block with a positive reward and a non-empty term
+    record: term reward − n · precision < minted. -/
+theorem minted_bounds (c : Ctx) (hp : 0 < c.p.rewardPrecision) (hv : ∀ n ∈ c.rf.nodes, 0 ≤ n.2) :
+    0 ≤ minted c ∧ (0 ≤ c.rf.total → minted c ≤ c.rf.total) ∧
+    (isRewardBlock c = true → c.rf.total > 0 → c.rf.nodes ≠ [] →
+      c.rf.total - (c.rf.nodes.length : Int) * c.p.rewardPrecision < minted c) := by
+  unfold minted
+  refine ⟨?_, ?_, ?_⟩
+  · split
+    · rename_i h; exact salaryTotal_nonneg c.p hp _ (Int.le_of_lt h.2) _ hv
+    · omega
+  · intro ht
+    split
+    · exact salaryTotal_le_total c.p hp _ ht _ hv
+    · exact ht
+  · intro hr ht hne
+    rw [if_pos ⟨hr, ht⟩]
+    exact salaryTotal_gt c.p hp _ _ hne hv
 
 /-! ### refutations of the full statement on the code as it stands (kernel-checked witnesses) -/
 
@@ -268,11 +325,40 @@ theorem fee_vanishes_without_income :
     sumBal (mineBlock wCtx (w0 0) 100000000 [wSub] wU).1 wU = sumBal (w0 0) wU - 21000 := by
   decide
 
+/-! ### reward blocks: the rounding remainder is never issued -/
+
+/-- a reward height for TermDuration 10 / InterimDuration 2: 13. Term reward 10 (precision 1), three nodes with equal
+    votes whose income addresses are 4, 6, 8; account 30 is an unregistered candidate whose deposit 1000 is refunded. -/
+def rwCtx : Ctx :=
+  { p := { voteRate := 200, depositRate := 100, minDeposit := 1000, termDuration := 10, interimDuration := 2, pool := 1,
+           rewardPrecision := 1 },
+    miner := 3, height := 13, rf := { total := 10, nodes := [(3, 1), (5, 1), (7, 1)], refunds := [30] } }
+def rw0 : St :=
+  { accts := fun a =>
+      if a = 1 then { bal := 5000 } else if a = 3 then { income := 4 } else if a = 5 then { income := 6 }
+      else if a = 7 then { income := 8 } else if a = 30 then { isCand := 2, deposit := some 1000, bal := 7 } else {} }
+def rwU : List Nat := [1, 3, 4, 5, 6, 7, 8, 30]
+
+/-- **reward_remainder_not_issued** (refutes "a reward block adds exactly the term reward"): reward 10 over three equal
+    nodes pays 3 + 3 + 3; the total grows by 9, the remaining 1 is issued to nobody. The refund (pool −1000,
+    candidate +1000, deposit entry cleared) does not change the total. -/
+theorem reward_remainder_not_issued :
+    isRewardBlock rwCtx = true ∧ minted rwCtx = 9 ∧ rwCtx.rf.total = 10 ∧
+    sumBal (mineBlock rwCtx rw0 100000000 [] rwU).1 rwU = sumBal rw0 rwU + 9 ∧
+    ((mineBlock rwCtx rw0 100000000 [] rwU).1.accts 4).bal = 3 ∧
+    ((mineBlock rwCtx rw0 100000000 [] rwU).1.accts 1).bal = 4000 ∧
+    ((mineBlock rwCtx rw0 100000000 [] rwU).1.accts 30).bal = 1007 ∧
+    ((mineBlock rwCtx rw0 100000000 [] rwU).1.accts 30).deposit = none := by
+  decide
+
 /-! non-vacuity of the partial theorem's hypotheses -/
+example : (∀ n ∈ rwCtx.rf.nodes, incomeOf rw0 n.1 ∈ rwU) ∧ (∀ a ∈ rwCtx.rf.refunds, a ∈ rwU) ∧ rwCtx.p.pool ∈ rwU ∧
+    (∀ n ∈ rwCtx.rf.nodes, 0 ≤ n.2) ∧ 0 < rwCtx.p.rewardPrecision := by decide
 example : BoxFree [wSub] ∧ (∀ t ∈ [wSub], ∀ a ∈ touches wCtx t, a ∈ wU) ∧ wU.Nodup := by
   refine ⟨?_, ?_, by decide⟩
   · intro t ht; simp at ht; subst ht; simp [wSub]
   · intro t ht a ha; simp at ht; subst ht; simp [touches, wSub, wCtx] at ha; rcases ha with rfl | rfl | rfl | rfl <;> decide
 example : sumBal (mineBlock wCtx (w0 4) 100000000 [wSub] wU).1 wU = sumBal (w0 4) wU := by decide
+example : minted wCtx = 0 := by decide
 
 end LemoProofs.C05
